@@ -85,7 +85,7 @@ try:
     # Vec/RawVec parts of C18 (reserve then push without moving, amortised growth) and C19 (capacity overflow):
     # the vec family's growth / bounds profiles with the capacity field compared against the RawVec model
     _part("C18V", _v.SPECS["C13"], profiles=[("growth", 900, 45), ("general", 300, 45), ("copy", 300, 40)], fields=["cap", "len", "res"],
-          quick_release=[], partial=[])
+          quick_release=[], partial=[], boundary=False)
     _part("C19V", _v.SPECS["C13"], profiles=[("bounds", 900, 45), ("growth", 300, 45), ("zst", 300, 40)], fields=["res", "cap", "len"],
           partial=[], boundary=True)
     _part("C18A", SPECS["C18"])
